@@ -12,7 +12,7 @@ PROPERTY = "C14"
 LEVEL = "exploration"
 # parts repeated in a child interpreter started with -O and with warnings turned into errors (vlib/runner.py, MODES)
 MODE_PARTS = {"OW": ['vectors', 'every-length', 'ring-hash-function', 'str-subclasses']}
-RULE_THREADS = (" The hash function a RendezvousHash(seed=s) holds (fresh, built with nodes=, copy.copy, copy.deepcopy) equals the reference with seed s. Instances of str subclasses (a plain subclass, one overriding __str__/__repr__/__format__, a str-valued Enum member) hash as their characters. Two threads: each hashes its own string while the other is pre-empted at every bytecode of the hash function (deterministic scheduler, one pre-emption per run; thorough: two) - every call still returns the reference value (the function is a pure function of its arguments, also under concurrency). One RendezvousHash shared by two threads, pre-empted once (some twice) at every bytecode of the ring's code: every lookup gives what the rule gives. Input lengths run to 800 (every length) and a few far beyond: the function has no bound, and a node name, a dash and a 250-byte key make some 300 bytes. One long-lived ring places 18 000 to 40 000 different keys (more than 65 536 scored strings) like the rule. Strings with code points above 255 (non-ASCII keys under allow_unicode_keys) must keep the value every release so far gives them - the reference hash of the code points' low bytes - since placement must not change between releases.")
+RULE_THREADS = (" The hash function a RendezvousHash(seed=s) holds (fresh, built with nodes=, copy.copy, copy.deepcopy) equals the reference with seed s. Instances of str subclasses (a plain subclass, one overriding __str__/__repr__/__format__, a str-valued Enum member) hash as their characters. Two threads: each hashes its own string while the other is pre-empted at every bytecode of the hash function (deterministic scheduler, one pre-emption per run; thorough: two) - every call still returns the reference value (the function is a pure function of its arguments, also under concurrency). One RendezvousHash shared by two threads, pre-empted once (some twice) at every bytecode of the ring's code: every lookup gives what the rule gives. Input lengths run to 800 (every length) and a few far beyond: the function has no bound, and a node name, a dash and a 250-byte key make some 300 bytes. One long-lived ring places 18 000 to 40 000 different keys (more than 65 536 scored strings) like the rule. Strings with code points above 255 (non-ASCII keys under allow_unicode_keys) must keep the value every release so far gives them - the reference hash of the code points' low bytes - since placement must not change between releases. Placement under genuine ties: pairs of server names whose scores for a key are equal under the real hash (the second name is computed by inverting the hash's rounds) are placed by RendezvousHash as the published rule says - the greater name wins in either order.")
 RULE = ("cases are (string, 32-bit seed); enumerated: published vectors, every string of length 0-3 "
         "(thorough: 0-3 over a larger alphabet, 4-5 over reduced ones) over representative code points "
         "incl. 0x00,0x7f,0x80,0xff x seeds {0,1,2^31,2^32-1}; Hypothesis: every length 0..64 over code "
@@ -226,6 +226,38 @@ def check_ring_hash(case):
     return sd != 0, ["ring-hash", how]
 
 
+def tie_cases(tier, seed):
+    """placement 'matches other rendezvous / murmur3 implementations': two servers whose scores for a key collide under the real
+    hash (the second name is solved for, refhash.tie_node; seeds 0 and others) - every implementation of the published rule gives
+    the key to the greater name, whatever the order of the server list"""
+    n = 40 if tier == "quick" else 400
+    for i in range(n):
+        a = ("10.0.%d.%d:11211" % (i % 7, 10 + i), "cache-%d.example.com:11211" % i, "/var/run/mc%d.sock" % i)[i % 3]
+        key = ("user:%d" % (i + seed), "k" * (1 + i % 9) + str(i), "ключ%d" % i if False else "key/%d/%d" % (seed, i))[i % 3]
+        yield (a, key, ("zz", "aa", "10.0.0.", "M")[i % 4], (0, 0, 1, 0xFFFFFFFF, 12345)[i % 5])
+
+
+def check_tie(case):
+    from pymemcache.client.rendezvous import RendezvousHash
+    a, key, stem, sd = case
+    b = refhash.tie_node(a, key, stem, sd)
+    sa, sb = murmur3_32("%s-%s" % (a, key), sd), murmur3_32("%s-%s" % (b, key), sd)
+    if sa != sb or sa != refhash.murmur3(("%s-%s" % (a, key)).encode("latin-1"), sd):
+        raise Violation(["differs-from-reference", "tie"], "murmur3_32 gives %#010x and %#010x for two strings the reference hashes alike (%r / %r with key %r, seed %#x)" % (sa, sb, a, b, key, sd))
+    want = max(a, b)
+    for order in ([a, b], [b, a]):
+        for how in ("ctor", "add"):
+            r = RendezvousHash(nodes=list(order), seed=sd) if how == "ctor" else RendezvousHash(seed=sd)
+            if how == "add":
+                for nd in order:
+                    r.add_node(nd)
+            got = r.get_node(key)
+            if got != want:
+                raise Violation(["tie-placement"], "servers %r (both score %#010x for key %r, seed %#x): get_node gives %r, the rendezvous rule (ties to the greater name) gives %r"
+                                % (order, sa, key, sd, got, want))
+    return True, ["genuine-tie", "seed=0" if sd == 0 else "seed!=0"]
+
+
 # ---- callers in several threads ---------------------------------------------------------------------------------
 
 PAIRS = [("hello-abc", "xyzzy"), ("abcd", "0123456789abc"), ("", "seven77"), ("\xff\x80\x00\x01tail", "\xe9" * 6), ("k" * 33, "k" * 34), ("node-1:11211-key", "node-2:11211-key")]
@@ -371,6 +403,7 @@ PARTS = [
     Part("one-long-lived-ring", "enum", check_long_ring, cases=long_ring_cases, shards={"quick": 3, "thorough": 3}),
     Part("one-ring-two-threads", "enum", check_ring_threads, cases=ring_thread_cases, exhaustive=True),
     Part("str-subclasses", "enum", check_subclass, cases=subclass_cases, shards={"quick": 1, "thorough": 1}, exhaustive=True),
+    Part("placement-under-genuine-ties", "enum", check_tie, cases=tie_cases, shards={"quick": 2, "thorough": 8}, exhaustive=True),
     Part("ring-hash-function", "enum", check_ring_hash, cases=ring_hash_cases, shards={"quick": 1, "thorough": 1}, exhaustive=True),
     Part("two-threads", "enum", check_threads, cases=thread_cases, exhaustive=True),
     Part("vectors", "enum", check_vector, cases=vector_cases, shards={"quick": 1, "thorough": 1}, exhaustive=True),
